@@ -5,6 +5,7 @@ CONSTANTS
   RxDeltas = {0, 1, 11, 61}
   TsVals = {0, 1, 20, 70}
   Kinds = {"norm"}
+  IdxDeltas = {1}
   FixMerged = FALSE
 VIEW View
 INVARIANTS NoPanic C05 C05Safe C06 C07
